@@ -107,6 +107,22 @@ pub enum ToLiveActor {
         namespace: NamespaceId,
         peer: PublicKey,
     },
+    /// Verification hook: run a harness-provided accept-side session future.
+    #[cfg(feature = "verif-hooks")]
+    VerifAccept {
+        #[debug("fut")]
+        fut: std::sync::Mutex<
+            Option<n0_future::boxed::BoxFuture<Result<SyncFinished, AcceptError>>>,
+        >,
+    },
+    /// Verification hook: snapshot of the sync state for a peer.
+    #[cfg(feature = "verif-hooks")]
+    VerifSnapshot {
+        namespace: NamespaceId,
+        peer: PublicKey,
+        #[debug("reply")]
+        reply: sync::oneshot::Sender<Option<VerifPeerState>>,
+    },
 }
 
 /// Events informing about actions of the live sync progress.
@@ -131,6 +147,26 @@ pub enum Event {
     /// Receiving this event does not guarantee that all content in the document is available. If
     /// blobs failed to download, this event will still be emitted after all operations completed.
     PendingContentReady,
+}
+
+/// Verification hook: replaces the network dial of `sync_with_peer`.
+#[cfg(feature = "verif-hooks")]
+pub type VerifDialFn = Arc<
+    dyn Fn(
+            NamespaceId,
+            PublicKey,
+            SyncReason,
+        ) -> n0_future::boxed::BoxFuture<Result<SyncFinished, ConnectError>>
+        + Send
+        + Sync,
+>;
+
+/// Verification hook: snapshot of the per-peer sync state.
+#[cfg(feature = "verif-hooks")]
+#[derive(Debug, Clone, PartialEq, Eq)]
+pub struct VerifPeerState {
+    pub running: Option<Origin>,
+    pub resync_requested: bool,
 }
 
 type SyncConnectRes = (
@@ -179,8 +215,16 @@ pub struct LiveActor {
     /// Sync state per replica and peer
     state: NamespaceStates,
     metrics: Arc<Metrics>,
+    #[cfg(feature = "verif-hooks")]
+    verif_dial: Option<VerifDialFn>,
 }
 impl LiveActor {
+    /// Verification hook: install the dial seam.
+    #[cfg(feature = "verif-hooks")]
+    pub fn verif_set_dial(&mut self, dial: VerifDialFn) {
+        self.verif_dial = Some(dial);
+    }
+
     /// Create the live actor.
     #[allow(clippy::too_many_arguments)]
     pub fn new(
@@ -217,6 +261,8 @@ impl LiveActor {
             queued_hashes: Default::default(),
             hash_providers: Default::default(),
             metrics,
+            #[cfg(feature = "verif-hooks")]
+            verif_dial: None,
         })
     }
 
@@ -356,6 +402,22 @@ impl LiveActor {
             } => {
                 self.on_neighbor_content_ready(namespace, node, hash).await;
             }
+            #[cfg(feature = "verif-hooks")]
+            ToLiveActor::VerifAccept { fut } => {
+                if let Some(fut) = fut.lock().expect("poisoned").take() {
+                    self.running_sync_accept.spawn(fut);
+                }
+            }
+            #[cfg(feature = "verif-hooks")]
+            ToLiveActor::VerifSnapshot {
+                namespace,
+                peer,
+                reply,
+            } => {
+                reply
+                    .send(self.state.verif_peer_state(&namespace, &peer))
+                    .ok();
+            }
         };
         Ok(true)
     }
@@ -363,6 +425,16 @@ impl LiveActor {
     #[instrument("connect", skip_all, fields(peer = %peer.fmt_short(), namespace = %namespace.fmt_short()))]
     fn sync_with_peer(&mut self, namespace: NamespaceId, peer: PublicKey, reason: SyncReason) {
         if !self.state.start_connect(&namespace, peer, reason) {
+            return;
+        }
+        #[cfg(feature = "verif-hooks")]
+        if let Some(dial) = self.verif_dial.clone() {
+            let fut = async move {
+                let res = dial(namespace, peer, reason).await;
+                (namespace, peer, reason, res)
+            }
+            .instrument(Span::current());
+            self.running_sync_connect.spawn(fut);
             return;
         }
         let endpoint = self.endpoint.clone();
